@@ -97,7 +97,7 @@ def model_apply(v, op):
     raise ValueError(kind)
 
 
-def mutator_contract(style, n, op_name, op_builder, watched, stale=0, ghosts=0):
+def mutator_contract(style, n, op_name, op_builder, watched, stale=0, ghosts=0, unnamed_at=None):
     """op_builder(objs, keys, extra) -> (method name, call args as Vals, model op)"""
     def setup(I, st):
         U = I.U
@@ -109,10 +109,16 @@ def mutator_contract(style, n, op_name, op_builder, watched, stale=0, ghosts=0):
         for t in allv:
             st.pc += [t != U.NONE, vm.ty(t) == vm.TAG["object"]]
         keys = ["k%d" % k for k in range(n)]
+        named = list(objs)
+        if unnamed_at is not None:
+            # an object admitted by a value assignment (check_on_set=False): listed, but without a name
+            extra_obj = Sym(U.fresh("admitted_unnamed"))
+            st.pc += [extra_obj.t != U.NONE, vm.ty(extra_obj.t) == vm.TAG["object"], z3.Distinct(*(allv + [extra_obj.t]))]
+            objs = objs[:unnamed_at] + [extra_obj] + objs[unnamed_at:]
         backing = I.make_list(st, objs)
         names = I.alloc_dict(st)
         if style == "dict":
-            for k, o in zip(keys, objs):
+            for k, o in zip(keys, named):
                 I.dict_store(st, names, Conc(k), o)
         watchers = I.alloc_dict(st)
         if watched:
@@ -145,10 +151,10 @@ def mutator_contract(style, n, op_name, op_builder, watched, stale=0, ghosts=0):
                 I.dict_store(st2, d, Conc("<generated name %d>" % j), o)
             return [(st2, d)]
         I.contracts["_named_objs"] = named_objs
-        mname, args, mop = op_builder(objs, keys, extra)
+        mname, args, mop = op_builder(named, keys, extra)
         found = I.src.find_method("ListProxy", mname)
         fv = I.bound_method(proxy, found)
-        v0 = View(objs, list(zip(keys, objs)) if style == "dict" else [])
+        v0 = View(objs, list(zip(keys, named)) if style == "dict" else [])
         return fv, args, {}, {"proxy": proxy, "p": p, "backing": backing, "names": names, "v0": v0, "mop": mop,
                               "symbols": {}}
 
@@ -192,7 +198,7 @@ def mutator_contract(style, n, op_name, op_builder, watched, stale=0, ghosts=0):
         if watched and len(notes) == 1:
             out.append(("notification is for 'objects'", z3.BoolVal(isinstance(notes[0][0], Conc) and notes[0][0].py == "objects")))
         return out
-    c_ = _mk_contract(style, n, op_name, op_builder, watched, stale, ghosts, setup, post)
+    c_ = _mk_contract(style, n, op_name, op_builder, watched, stale, ghosts, setup, post, unnamed_at)
     if ghosts:
         c_.static_replay = GHOST_REPLAY
         c_.static_witness = "key assignment / update through a handle obtained before the objects were emptied"
@@ -225,11 +231,12 @@ print('NOT-REPRODUCED'); sys.exit(0)
 '''
 
 
-def _mk_contract(style, n, op_name, op_builder, watched, stale, ghosts, setup, post):
+def _mk_contract(style, n, op_name, op_builder, watched, stale, ghosts, setup, post, unnamed_at=None):
     return FunctionContract("%s:ListProxy.%s" % (MOD, op_builder(["?"] * n, ["k%d" % k for k in range(n)], ["?", "?"])[0]), PROP,
                             setup, post, name="ListProxy.%s[%s-declared, %d objects%s%s]" % (
                                 op_name, style, n, ", watched" if watched else "", ", handle obtained %d mutation(s) earlier" % stale if stale else
-                                (", handle still holding %d object(s) removed since" % ghosts if ghosts else "")))
+                                (", handle still holding %d object(s) removed since" % ghosts if ghosts else "")
+                                + (", one unnamed admitted object at position %d" % unnamed_at if unnamed_at is not None else "")))
 
 
 def contracts():
@@ -267,6 +274,13 @@ def contracts():
     for (n, g) in ((0, 2), (2, 1)):
         C.append(mutator_contract("dict", n, "[newkey]=", lambda o, k, x: ("__setitem__", [Conc("knew"), x[0]], ("setkey", "knew", x[0])), False, ghosts=g))
     C.append(mutator_contract("list", 1, "append", lambda o, k, x: ("append", [x[0]], ("append", x[0])), False, ghosts=1))
+    # dict-declared objects with an unnamed object admitted by a value assignment (names and list out of step)
+    for n in (1, 2):
+        for j in range(n + 1):
+            for i in range(n):
+                C.append(mutator_contract("dict", n, "[k%d]=" % i, lambda o, k, x, i=i: ("__setitem__", [Conc(k[i]), x[0]], ("setkey", k[i], x[0])), False, unnamed_at=j))
+                C.append(mutator_contract("dict", n, "pop(k%d)" % i, lambda o, k, x, i=i: ("pop", [Conc(k[i])], ("popkey", k[i])), False, unnamed_at=j))
+            C.append(mutator_contract("dict", n, "[newkey]=", lambda o, k, x: ("__setitem__", [Conc("knew"), x[0]], ("setkey", "knew", x[0])), False, unnamed_at=j))
     return C
 
 
